@@ -311,6 +311,16 @@ impl Walrus {
                         let mut info = info_arc.write().map_err(|_| {
                             io::Error::new(io::ErrorKind::Other, "col info write lock poisoned")
                         })?;
+                        // The column lock was released for the read: another consumer may have
+                        // committed this very entry (or more) in the meantime. Returning it again
+                        // would deliver it twice, so take the newer position and try again.
+                        if checkpoint
+                            && info.tail_block_id == active_block.id
+                            && info.tail_offset > tail_off
+                        {
+                            drop(info);
+                            continue;
+                        }
                         let mut maybe_persist = None;
                         if checkpoint {
                             info.tail_block_id = active_block.id;
